@@ -41,7 +41,7 @@ class Gen:
                 distinct=True, having=True, neg=True, strcat=True, group_expr=True, agg_str=True,
                 order=True, limit=True, sel_bool=True, countd=True, nested_bool=True,
                 touch_all=False, const_pred=True, order_const=True, agg_const=True, distinct_order=True,
-                not_in_sub=True)
+                not_in_sub=True, sub_top_only=False, sel_needs_col=False)
 
     def __init__(self, rnd, tables=None, subq=True, joins=True, ints=INTS, strs=STRS, maxrows=4, feat=None):
         self.r = rnd
@@ -120,7 +120,11 @@ class Gen:
         if d <= 0 or p < 0.4:
             if self.cols(scope, STR) and r.random() < 0.2:
                 op = r.choice(["=", "<>", "<", ">="])
-                return ("bin", op, self.str_expr(scope, outer, 0), self.str_expr(scope, outer, 0), BOOL)
+                lhs = self.str_expr(scope, outer, 0)
+                if not self.f["const_pred"] and not has_col(lhs):
+                    a, c, _ = r.choice(self.cols(scope, STR))
+                    lhs = ("col", a, c, STR)
+                return ("bin", op, lhs, self.str_expr(scope, outer, 0), BOOL)
             op = r.choice(["=", "<>", "<", "<=", ">", ">=", "=", "="])
             lhs = self.int_expr(scope, outer, d - 1)
             if not self.f["const_pred"] and not has_col(lhs) and self.cols(scope, INT):
@@ -145,7 +149,8 @@ class Gen:
                 lhs = ("col", a, c, INT)
             return ("inl", lhs, vals, r.random() < 0.35, BOOL)
         if p < 0.9 and self.cols(scope, STR) and self.f["like"]:
-            return ("bin", "like", self.str_expr(scope, outer, 0), ("cs", r.choice(["a%", "%b", "_", "%", "a_", ""])), BOOL)
+            a, c, _ = r.choice(self.cols(scope, STR))
+            return ("bin", "like", ("col", a, c, STR), ("cs", r.choice(["a%", "%b", "_", "%", "a_", ""])), BOOL)
         if allow_sub and self.subq:
             return self.sub_pred(scope, outer)
         lhs = self.int_expr(scope, outer, 0)
@@ -165,6 +170,16 @@ class Gen:
             where = self.bool_expr(sscope, scope, 1)
         kinds = self.f["subq"]
         k = {"in": 0.2, "exists": 0.6, "scalar": 0.9}[r.choice(kinds)]
+        if self.f["sub_top_only"]:
+            if 0.45 <= k < 0.8:
+                # EXISTS: correlate by an equality between an inner and an outer column
+                ic = r.choice([c for c in sscope if c[2] == INT])
+                oc = r.choice(self.cols(scope, INT))
+                corr = ("bin", "=", ("col", ic[0], ic[1], INT), ("col", oc[0], oc[1], INT), BOOL)
+                where = corr if where is None or r.random() < 0.5 else ("bin", "and", corr, where, BOOL)
+            else:
+                # IN / scalar: uncorrelated
+                where = self.bool_expr(sscope, None, 1) if r.random() < 0.5 else None
         if k < 0.45:
             sub = dict(sel=[(("col", al, r.choice([c for c in sscope if c[2] == INT])[1], INT), "s1")],
                        frm=("t", t, al), where=where, grp=[], hav=None, agg=False, dist=False, ord=[], lim=-1, off=0)
@@ -174,10 +189,16 @@ class Gen:
                        dist=False, ord=[], lim=-1, off=0)
             return ("exists", sub, r.random() < 0.4, BOOL)
         f = r.choice(["max", "min", "count", "sum"])
+        if self.f["sub_top_only"]:
+            where = self.bool_expr(sscope, None, 1) if r.random() < 0.5 else None
         col = r.choice([c for c in sscope if c[2] == INT])
         sub = dict(sel=[(("agg", f, ("col", al, col[1], INT), INT), "s1")], frm=("t", t, al), where=where,
                    grp=[], hav=None, agg=True, dist=False, ord=[], lim=-1, off=0)
-        return ("bin", r.choice(["=", "<", ">="]), self.int_expr(scope, outer, 0), ("scalar", sub, INT), BOOL)
+        lhs = self.int_expr(scope, outer, 0)
+        if not self.f["const_pred"] and not has_col(lhs):
+            a, c, _ = r.choice(self.cols(scope, INT))
+            lhs = ("col", a, c, INT)
+        return ("bin", r.choice(["=", "<", ">="]), lhs, ("scalar", sub, INT), BOOL)
 
     # --- FROM
     def from_clause(self):
@@ -215,8 +236,14 @@ class Gen:
         r = self.r
         frm, scope = self.from_clause()
         q = dict(frm=frm, where=None, grp=[], hav=None, agg=False, dist=False, ord=[], lim=-1, off=0)
+        outer_join = has_outer_join(frm)
         if r.random() < 0.65:
-            q["where"] = self.bool_expr(scope, None, 2, allow_sub=True)
+            if self.f["sub_top_only"]:
+                q["where"] = self.bool_expr(scope, None, 2, allow_sub=False)
+                if self.subq and not outer_join and r.random() < 0.3:
+                    q["where"] = ("bin", "and", self.sub_pred(scope, None), q["where"], BOOL)
+            else:
+                q["where"] = self.bool_expr(scope, None, 2, allow_sub=True)
         if r.random() < 0.35:
             q["agg"] = True
             ng = r.choice([0, 1, 1, 2])
@@ -255,6 +282,9 @@ class Gen:
                     sel.append(self.bool_expr(scope, None, 1))
                 else:
                     sel.append(self.int_expr(scope, None, 1))
+            if self.f["sel_needs_col"] and not any(has_col(e) for e in sel):
+                a, c, ty = r.choice(scope)
+                sel.append(("col", a, c, ty))
             q["sel"] = [(e, f"c{i + 1}") for i, e in enumerate(sel)]
             q["dist"] = r.random() < 0.15 and self.f["distinct"]
         if self.f["touch_all"]:
@@ -308,6 +338,12 @@ def has_col(e):
     if e[0] == "col":
         return True
     return any(has_col(x) for x in e[1:] if isinstance(x, tuple))
+
+
+def has_outer_join(f):
+    if f[0] == "t":
+        return False
+    return f[1] in ("left", "right", "full") or has_outer_join(f[2]) or has_outer_join(f[3])
 
 
 def aliases_of(e, acc):
@@ -509,7 +545,7 @@ def sqlite_rows(db, tables, sql):
     con = sqlite3.connect(":memory:")
     for t, cols in tables.items():
         con.execute(f"create table {t}({', '.join(c + (' integer' if ty == INT else ' text') for c, ty in cols)})")
-        for r in db[t]:
+        for r in db.get(t, []):
             con.execute(f"insert into {t} values ({', '.join('?' for _ in r)})", r)
     try:
         import re
